@@ -43,9 +43,54 @@ func (w *World) filesVsModel(mode string) []string {
 	return out
 }
 
+// filesVsModel2: the same for the second collection (mode "all"): every accepted object of the
+// second collection has a file holding its accepted version, deleted ones have none.
+func (w *World) filesVsModel2() []string {
+	var out []string
+	if !w.Two {
+		return nil
+	}
+	onDisk := map[string]string{}
+	for _, p := range w.FS.Paths(w.Root) {
+		base := p[strings.LastIndex(p, "/")+1:]
+		if strings.HasSuffix(p, "/") || strings.HasPrefix(base, ".") || len(base) < 36 || strings.HasPrefix(base, "schema") {
+			continue
+		}
+		u := base[:36]
+		if _, mine := w.M2[u]; !mine && !w.Dead2[u] {
+			continue
+		}
+		data, _ := w.FS.Get(p)
+		var g Wide2
+		if err := decodeMaybeGz(data, w.Cfg.Compress, &g); err != nil {
+			out = append(out, "an object file of the second collection cannot be decoded")
+			continue
+		}
+		onDisk[u] = fmt.Sprintf("%d|%s", g.A, g.K)
+	}
+	for u, m := range w.M2 {
+		if onDisk[u] != fmt.Sprintf("%d|%s", m.A, m.K) {
+			out = append(out, "second collection: the accepted version of an object is not on disk")
+		}
+	}
+	for u := range w.Dead2 {
+		if _, ok := onDisk[u]; ok {
+			out = append(out, "second collection: a deleted object has a file")
+		}
+	}
+	sort.Strings(out)
+	return out
+}
+
 // secondHandle opens a second handle on a copy of the directory and checks that it sees the model.
 func (w *World) secondHandle(what string) {
 	live, liveFS := w.DB, w.FS
+	two := w.Two
+	if what == "flushallc" {
+		// FlushAllAndCommit is a barrier for its own collection only
+		w.Two = false
+	}
+	defer func() { w.Two = two }()
 	cp := w.FS.Clone()
 	vfs.Cur = cp
 	w.FS = cp
@@ -94,12 +139,30 @@ func runC10(c *Ctx) {
 		depth = 5
 		cfgs = append(cfgs, Cfg{Async: 1, Cache: true, Compress: true}, Cfg{Async: 2, Index: 2, MapRev: true})
 	}
-	// (A) sequential histories with explicit clock ticks
+	// (A) sequential histories with explicit clock ticks; the last two runs hold a second
+	// collection created from the same Schema value
+	type runA struct {
+		cfg Cfg
+		two bool
+	}
+	var runs []runA
 	for _, cfg := range cfgs {
-		cfg := cfg
+		runs = append(runs, runA{cfg, false})
+	}
+	runs = append(runs, runA{Cfg{Async: 1}, true}, runA{Cfg{Async: 3}, true})
+	for _, ra := range runs {
+		cfg := ra.cfg
+		worldTwo = ra.two
 		thr, timeout := cfg.asyncParams()
 		timeoutTicks := int(timeout/step) + 2
-		e := &Explorer{C: c, Cfg: cfg, Prop: "C10", Alphabet: alphabetC10(cfg), Depth: depth, MaxLive: 3}
+		alpha := alphabetC10(cfg)
+		if ra.two {
+			alpha = []Op{
+				{Op: "ins", V: 0, K: 0}, {Op: "ins", V: 1, K: 2}, {Op: "upd", Slot: 0, V: 3, K: 0}, {Op: "del", Slot: 0}, {Op: "tick"}, {Op: "flushallc"}, {Op: "reopen"},
+				{Op: "ins2", V: 1}, {Op: "ins2", V: 2}, {Op: "upd2", V: 3}, {Op: "del2"},
+			}
+		}
+		e := &Explorer{C: c, Cfg: cfg, Prop: "C10", Alphabet: alpha, Depth: depth, MaxLive: 3}
 		e.Check = func(w *World) {
 			last := Op{}
 			if len(w.Path) > 0 {
@@ -147,13 +210,24 @@ func runC10(c *Ctx) {
 			what := fmt.Sprintf("timeout (%v) elapsed", timeout)
 			if timeout > 100*step {
 				// timeout practically infinite: only the threshold applies
-				if pending < thr {
+				if pending < thr && len(w.filesVsModel2()) < thr {
 					return
 				}
 				need = 2
 				what = fmt.Sprintf("pending count reached the threshold (%d)", thr)
 			}
+			pending2 := len(w.filesVsModel2())
 			vrt.Tick(need)
+			if w.Two && (timeout <= 100*step || pending2 >= thr) {
+				if pr := w.filesVsModel2(); len(pr) > 0 {
+					w.fail("deadline-missed|second", fmt.Sprintf("%s and %d clock steps passed without any further call, but: %s", what, need, strings.Join(pr, "; ")))
+					return
+				}
+			}
+			if timeout > 100*step && pending < thr {
+				// only the second collection had reached its threshold
+				return
+			}
 			if pr := w.filesVsModel("all"); len(pr) > 0 {
 				w.fail("deadline-missed", fmt.Sprintf("%s and %d clock steps passed without any further call, but: %s", what, need, strings.Join(pr, "; ")))
 				return
@@ -178,6 +252,7 @@ func runC10(c *Ctx) {
 		}
 		e.Run()
 	}
+	worldTwo = false
 	// (B) relative timing of the flusher versus foreground calls
 	bound := 2
 	progs := [][]Call{
